@@ -138,6 +138,15 @@ func (s *STUNConn) Conn() net.Conn {
 	return s.nextConn
 }
 
+// TakeBuffered returns, and forgets, the bytes that were read from the stream
+// but not yet returned as a frame. The caller takes over the stream from here.
+func (s *STUNConn) TakeBuffered() []byte {
+	buffered := s.buff
+	s.buff = nil
+
+	return buffered
+}
+
 // NewSTUNConn creates a STUNConn.
 func NewSTUNConn(nextConn net.Conn) *STUNConn {
 	return &STUNConn{nextConn: nextConn}
